@@ -50,6 +50,9 @@ type Call struct {
 	LoadBytes []byte            `json:"load_bytes,omitempty"`
 	// Carry (C06 pieces): input name <- output name of call Ref
 	Carry map[string]string `json:"carry,omitempty"`
+	// Alias (run): input name -> other input name whose very tensor OBJECT is passed for it too (the two hold equal
+	// values; the caller made one tensor and passed it twice).
+	Alias map[string]string `json:"alias,omitempty"`
 	// CarryAll (feedback): the caller also leaves every tensor of call Ref's result map in the input map, under its
 	// output name (a streaming loop that does `inputs = merge(prevOutputs, newInputs)`).
 	CarryAll bool `json:"carry_all,omitempty"`
